@@ -72,3 +72,61 @@ package turn
 
 //@ func (*RelayAddressGeneratorPortRange).Validate
 //@   ensures [C20:validate] res == nil ==> 1 <= int(r.MinPort) && 1 <= int(r.MaxPort) && r.RelayAddress != nil && r.Address != "" && r.Rand != nil && r.Net != nil && r.MaxRetries != 0
+
+// ---- C17: time-windowed shared-secret credentials (lt_cred.go, server_config.go) -------------------------------
+
+//@ ghost func authKeyOf(username string, realm string, password string) int
+//@ spec func ltPassword(secret string, username string) int = b64(macOf(secret, username))
+//@ spec func unixOf(t int) int = floordiv(t, 1000000000)
+
+// GenerateAuthKey hashes "username:realm:password" with MD5 through fmt.Fprint into a hash.Hash; the contract names the
+// result (a function of the three texts only) and is assumed, not verified (listed under assumptions).
+//@ func GenerateAuthKey
+//@   trusted
+//@   pure
+//@   ensures res != nil && len(res) == 16 && strOf(res) == authKeyOf(username, realm, password)
+
+//@ func longTermCredentials
+//@   ensures [C17:password-is-hmac] res1 == nil ==> res0 == ltPassword(sharedSecret, username)
+//@   ensures (res1 != nil) == (hashWriteFailed && !old(hashWriteFailed)) || old(hashWriteFailed)
+//@   ensures res1 != nil ==> hashWriteFailed
+//@   ensures !old(hashWriteFailed) && res1 == nil ==> !hashWriteFailed
+//@   assigns hashKey, hashed, macLen, hashWriteFailed
+
+//@ func GenerateLongTermCredentials
+//@   requires !hashWriteFailed
+//@   ensures [C17:username-is-expiry] isInt(res0) && intOf(res0) == unixOf(now() + duration) && res0 == itoa(unixOf(now() + duration))
+//@   ensures [C17:password-is-hmac] res2 == nil ==> res1 == ltPassword(sharedSecret, res0)
+//@   ensures res2 == nil || hashWriteFailed
+//@   assigns hashKey, hashed, macLen, hashWriteFailed, timers
+
+//@ func GenerateLongTermTURNRESTCredentials
+//@   requires !hashWriteFailed
+//@   ensures [C17:username-is-expiry] res0 == strcat(strcat(itoa(unixOf(now() + duration)), ":"), user)
+//@   ensures [C17:password-is-hmac] res2 == nil ==> res1 == ltPassword(sharedSecret, res0)
+//@   ensures res2 == nil || hashWriteFailed
+//@   assigns hashKey, hashed, macLen, hashWriteFailed, timers
+
+//@ func NewLongTermAuthHandler$1
+//@   requires ra != nil && logger != nil && !hashWriteFailed
+//@   ensures [C17:accept-only-unexpired] res2 ==> isInt(ra.Username) && intOf(ra.Username) >= unixOf(now())
+//@   ensures [C17:accept-all-unexpired] isInt(ra.Username) && intOf(ra.Username) >= unixOf(now()) && !hashWriteFailed ==> res2
+//@   ensures [C17:key-is-long-term-key] res2 ==> res0 == ra.Username && res1 != nil && strOf(res1) == authKeyOf(ra.Username, ra.Realm, ltPassword(sharedSecret, ra.Username))
+//@   ensures !res2 ==> res1 == nil
+//@   assigns hashKey, hashed, macLen, hashWriteFailed, timers
+
+//@ func LongTermTURNRESTAuthHandler$1
+//@   requires ra != nil && logger != nil && !hashWriteFailed
+//@   ensures [C17:accept-only-unexpired] res2 ==> isInt(splitAt(ra.Username, ":", 0)) && intOf(splitAt(ra.Username, ":", 0)) >= unixOf(now())
+//@   ensures [C17:accept-all-unexpired] isInt(splitAt(ra.Username, ":", 0)) && intOf(splitAt(ra.Username, ":", 0)) >= unixOf(now()) && !hashWriteFailed ==> res2
+//@   ensures [C17:key-is-long-term-key] res2 ==> res1 != nil && strOf(res1) == authKeyOf(ra.Username, ra.Realm, ltPassword(sharedSecret, ra.Username))
+//@   ensures [C17:user-id] res2 ==> res0 == (splitLen(ra.Username, ":") > 1 ? splitAt(ra.Username, ":", 1) : ra.Username)
+//@   ensures !res2 ==> res1 == nil
+//@   assigns hashKey, hashed, macLen, hashWriteFailed, timers
+
+// The property as lemmas over the contracts above: the user name stamped by a generator for expiry second t passes the
+// matching handler's acceptance test exactly at the instants n (in seconds) with n <= t; for the REST form the first
+// field of "t:user" is the stamp whatever the user part is, and the second field is the user when it has no colon.
+//@ lemma [C17:window-plain] (t, n): (isInt(itoa(t)) && intOf(itoa(t)) >= n) == (t >= n)
+//@ lemma [C17:window-rest] (t, n, user): (isInt(splitAt(strcat(strcat(itoa(t), ":"), user), ":", 0)) && intOf(splitAt(strcat(strcat(itoa(t), ":"), user), ":", 0)) >= n) == (t >= n)
+//@ lemma [C17:rest-user-id] (t, user): !hasSep(user, ":") ==> splitLen(strcat(strcat(itoa(t), ":"), user), ":") == 2 && splitAt(strcat(strcat(itoa(t), ":"), user), ":", 1) == user
